@@ -130,6 +130,24 @@ MUTANTS = [
         }
         self.write_code_unit(bmp);
     }''', None),
+    # --- second batch: spots the sub-agents' changes did not touch
+    ('for_bom_accepts_ef_bb_only', ['C10'], 'src/lib.rs',
+     '''        if buffer.starts_with(b"\\xEF\\xBB\\xBF") {
+            Some((UTF_8, 3))''',
+     '''        if buffer.starts_with(b"\\xEF\\xBB") {
+            Some((UTF_8, 3))''', None),
+    ('iso2022jp_has_pending_state_ignores_roman', ['C12'], 'src/iso_2022_jp.rs',
+     '''        !matches!(self.state, Iso2022JpEncoderState::Ascii)''',
+     '''        matches!(self.state, Iso2022JpEncoderState::Jis0208)''', None),
+    ('iso2022jp_encoder_query_drops_end_transition', ['C07'], 'src/iso_2022_jp.rs',
+     '''        checked_add_opt(
+            checked_add(3, u16_length.checked_mul(4)),
+            checked_div(u16_length.checked_add(1), 2),
+        )''',
+     '''        checked_add_opt(
+            u16_length.checked_mul(4),
+            checked_div(u16_length.checked_add(1), 2),
+        )''', None),
 ]
 
 
